@@ -8,7 +8,7 @@ WT=$MUTDIR/$p
 cd $WT || exit 2
 git diff -- src > /tmp/confirm_$p.diff
 [ -s /tmp/confirm_$p.diff ] || { echo "no change applied"; exit 2; }
-DEMO=$(python3 -c "import json;print(json.load(open('meta.json'))['demo_cmd'])")
+DEMO=$(python3 -c "import json;print(json.load(open('meta.json'))['demo_cmd'].split('   (')[0].split('  #')[0])")
 L=$(cargo test --offline --lib 2>&1 | grep -E "^test result" | tail -1)
 bash -c "$DEMO" > /tmp/demo_with_$p.log 2>&1; W=$?
 git apply -R /tmp/confirm_$p.diff
